@@ -1,3 +1,3 @@
 From Coq Require Import Extraction ExtrOcamlBasic.
 From Nitro Require Import Base.Bytes Str.StrModel Str.StrSpec Fmt.FormatModel Fmt.FormatSpec.
-Extraction "fmt_model.ml" localize render_loc reloc_chain stream_chain spec_stream format_seq stateless format_chain format_str exception_what render print_dec read_dec spec_format spec_message flatten_ops placeholder_count pieces interleave template subst intercalate contains.
+Extraction "fmt_model.ml" dual conv_text forget_conv quoted localize render_loc reloc_chain stream_chain spec_stream format_seq stateless format_chain format_str exception_what render print_dec read_dec spec_format spec_message flatten_ops placeholder_count pieces interleave template subst intercalate contains.
